@@ -18,7 +18,7 @@ That np.interp is the piecewise-linear interpolant and column independence under
 from __future__ import annotations
 
 from ..absint import Raised, TOP, Evaluator, FuncV, Lin, Obj, SliceV, Sym, Unmodelled
-from ..harness import da_attr_models, da_method_models
+from ..harness import foreign_ops, da_attr_models, da_method_models
 from ..kernel import KernelEval, OrderType
 from ..xmodel import dimsym, make_da, make_grid
 
@@ -168,7 +168,10 @@ def _threading(ctx, P):
         bad = None
         if len(calls) != 1 or any(o.kind != "return" for o in outs):
             bad = "the interpolation wrapper is not called exactly once"
-        elif any(not (isinstance(o.value, Obj) and o.value.name.endswith("-RESULT") and not [e for e in o.value.eff if e[0] not in ("copy", "transpose")]) for o in outs):
+        elif any(isinstance(o.value, Obj) and foreign_ops(o.value.eff)[1] for o in outs):
+            ctx.unknown("R08.1", inst, f"operation(s) {foreign_ops(outs[0].value.eff)[1]} on what transform() returns")
+            continue
+        elif any(not (isinstance(o.value, Obj) and o.value.name.endswith("-RESULT") and not foreign_ops(o.value.eff)[0]) for o in outs):
             o = outs[0]
             bad = f"transform() returns {o.value!r} (operations {[e[0] for e in o.value.eff] if isinstance(o.value, Obj) else '?'}): the interpolated values are altered after the interpolation"
         else:
@@ -247,7 +250,9 @@ def _threading(ctx, P):
         else:
             ctx.ok("R08.4", "result name", "phi.name + suffix")
         if isinstance(out, Obj):
-            others = [e[0] for e in out.eff if e[0] not in ("rename", "copy", "transpose", "assign_coords", "rename-name")]
+            others, unknown_ops = foreign_ops(out.eff)
+            if unknown_ops:
+                raise Unmodelled(f"operation(s) {unknown_ops} on the wrapper's result")
             if out.name != "APPLIED" or others:
                 bad = bad or f"the wrapper returns {out.name!r} after {[e[0] for e in out.eff]}: the kernel's output is altered by {others or 'something else'}"
         if not (isinstance(out, Obj) and out.attrs.get("dims", ())[-1:] == (Sym("lev"),)):
